@@ -775,8 +775,9 @@ class Engine:
     def note(self, s):
         self.notes.append(s)
 
-    def abstract(self, value, name):
-        """cut point: a fresh variable standing for the term `value` (same term -> same variable)"""
+    def abstract(self, value, name, same_as=None):
+        """cut point: a fresh variable standing for the term `value` (same term -> same variable).
+        same_as: an existing cut symbol that `value` has been proved equal to (by a separate obligation)"""
         if not isinstance(value, SymReal):
             return value
         if const_value(value.e) is not None:
@@ -784,6 +785,9 @@ class Engine:
         for t, f in self.subs:
             if t.eq(value.e):
                 return SymReal(f)
+        if same_as is not None and isinstance(same_as, SymReal):
+            self.subs.append((value.e, same_as.e))
+            return same_as
         f = z3.Real("cut!%s" % name)
         self.subs.append((value.e, f))
         return SymReal(f)
@@ -841,8 +845,11 @@ class Engine:
             d = self.decisions[self.pos]
             self.pos += 1
             lit = cond if d else z3.Not(cond)
-            self._side([lit])
+            new_divs = self._side([lit])
             self.pc.append(lit)
+            # a model obtained in the meantime (after a sqrt / assume during the replay) need not satisfy this literal
+            if self.model is not None and not (self._model_true(lit) and all(self._model_true(x) for x in new_divs)):
+                self.model = None
             return d
         if self.pos >= self.max_depth:
             raise Inconclusive("depth-bound", "more than %d symbolic branches on one path" % self.max_depth)
@@ -866,13 +873,22 @@ class Engine:
         if rt == "unknown" and rf == "unknown":
             raise Inconclusive("branch-feasibility-unknown", "%s at %s" % (str(c)[:160], _where()))
         if "unknown" in (rt, rf):
-            # one side is known feasible, the other could not be decided: follow the feasible side and report the
-            # other one as an unexplored (inconclusive) path instead of losing both
-            self.unknown_sides.append("%s side of %s at %s" % ("False" if rf == "unknown" else "True", str(c)[:120], _where()))
-            if rt == "unknown":
-                rt = "unsat"
+            other = rf if rt == "unknown" else rt
+            if other == "unsat":
+                # the path condition is satisfiable (invariant) and one side is refuted: the undecided side is the
+                # feasible one by exclusion (no model available for it)
+                if rt == "unknown":
+                    rt, mt = "sat", None
+                else:
+                    rf, mf = "sat", None
             else:
-                rf = "unsat"
+                # one side is known feasible, the other could not be decided: follow the feasible side and report
+                # the other one as an unexplored (inconclusive) path instead of losing both
+                self.unknown_sides.append("%s side of %s at %s" % ("False" if rf == "unknown" else "True", str(c)[:120], _where()))
+                if rt == "unknown":
+                    rt = "unsat"
+                else:
+                    rf = "unsat"
         if rt == "sat" and rf == "sat":
             self.stack.append((self.decisions[: self.pos] + [False], mf))
             d = True
